@@ -94,6 +94,33 @@ def fields_read_by_serialize(body):
     return read, variants
 
 
+def neutral_field(prog, an, tname, fname):
+    """(number of constructions of ADT `tname` in bodies reachable from the parse roots, [(body, value)] of those that
+    give field `fname` anything but a constant, `None` or `Default::default()`)."""
+    sites, loaded = 0, []
+    for b in reach_bodies(prog, PARSE_ROOTS).values():
+        if b.derived and "nom_derive::Parse" not in b.path and not ((b.parent_impl or {}).get("trait", "").endswith("Parse")):
+            continue          # derived Clone / Default copy or default the field; only decoders can load it
+        for (blk, i, st) in block_aggs(b):
+            rv = st["rv"]
+            if rv["adt"] != tname or fname not in (rv.get("fields") or []):
+                continue
+            sites += 1
+            e = peel(an.op(b, rv["ops"][rv["fields"].index(fname)]))
+            if e[0] == "tfield" and e[2] == 1 and e[1][0] == "ok" and peel(e[1][1])[0] == "call" and peel(e[1][1])[2] is not None and peel(e[1][1])[2].local:
+                # the value component of a crate closure / function (`#[nom(Ignore)]` expands to `|i| Ok((i, None))`)
+                cb = prog.bodies.get(peel(e[1][1])[2].path)
+                if cb is not None:
+                    okv = peel(an.interp._through("ok", an.local(cb, 0)))
+                    if okv[0] == "tuple" and len(okv[1]) == 2:
+                        e = peel(okv[1][1])
+            neutral = e[0] in ("const", "constother", "uconst") or (e[0] == "agg" and e[2] == "None" and not e[3]) or \
+                (e[0] == "call" and e[2] is not None and e[2].nsyn in ("std::default::Default::default",) and not e[3])
+            if not neutral:
+                loaded.append((b.path, canon(e)[:100]))
+    return sites, loaded
+
+
 def run(ctx, env):
     prog = env.prog("default")
     an = An(prog)
@@ -148,7 +175,17 @@ def run(ctx, env):
                 emitted = (fname in read) if not is_enum else True
                 if not is_enum:
                     ok = emitted or fname == "padding"
-                    ctx.ob("R16.2", tname, "field-emitted:%s" % fname, ok, "field %s is %s by the derived serializer" % (fname, "read" if emitted else "skipped"))
+                    why = "field %s is %s by the derived serializer" % (fname, "read" if emitted else "skipped")
+                    if not ok:
+                        # a skipped field that decoding never fills carries nothing the JSON could be unfaithful to:
+                        # every construction of the type on the parse path gives it a constant / None / Default
+                        sites, loaded = neutral_field(prog, an, tname, fname)
+                        if sites and not loaded:
+                            ok = True
+                            why += "; it carries no decoded information: all %d construction(s) of %s on the parse path set it to a constant / None / Default::default()" % (sites, tname.rsplit("::", 1)[-1])
+                        elif loaded:
+                            why += "; and %s fills it with %s" % (loaded[0][0], loaded[0][1])
+                    ctx.ob("R16.2", tname, "field-emitted:%s" % fname, ok, why)
                     if not emitted:
                         continue
                 ty = parse_ty(f["ty"])
